@@ -111,11 +111,17 @@ class FsmExtractor:
         if body is None:
             self.errors.append('coroutine body not found')
             return
+        from .ctx import yield_site_of, yield_wrappers
         ys = []
+        wr = yield_wrappers(prog)
         for bi, t in prog.calls(body):
             fn = t['func'].get('fn')
             if fn and (fn.get('resolved') or fn['path']).endswith('::yield_'):
                 ys.append(bi)
+            elif fn and wr:
+                kind_, callee_ = prog.resolve_callee(fn, bind_listener=False)
+                if kind_ == 'local' and callee_ in wr:
+                    ys.append(bi)
         ys.sort(key=lambda b: (body.blocks[b]['term']['span']['line'], body.blocks[b]['term']['span']['col']))
         self.sites = ys
         eng = self.new_engine(unroll=False)
@@ -123,13 +129,16 @@ class FsmExtractor:
         inv.screen_init(eng, st)
 
         def hook(kind, st_, fr, bi, *a):
-            if kind == 'yield' and fr.func == CLOSURE:
+            ys_ = yield_site_of(fr, bi) if kind == 'yield' else None
+            if ys_ is not None:
                 callee, args, t = a
-                lst = self.arrivals.setdefault(bi, [])
+                cfr, cbi = ys_
+                lst = self.arrivals.setdefault(cbi, [])
                 yv = args[1] if len(args) > 1 else None
-                self.site_yield_value.setdefault(bi, set()).add(self._yield_desc(yv))
+                self.site_yield_value.setdefault(cbi, set()).add(self._yield_desc(yv))
                 if len(lst) < 6:
-                    lst.append((st_.fork(), fr))
+                    # (state, coroutine frame, helper frame and block when the yield is made inside a helper)
+                    lst.append((st_.fork(), cfr) if fr is cfr else (st_.fork(), cfr, fr, bi))
             return None
         eng.hooks = [hook]
         eng.entry_name = 'coroutine body (arrival states)'
@@ -156,7 +165,10 @@ class FsmExtractor:
         returns set of outcomes: (next_site_index | 'end', tuple(events), yielded_desc)"""
         prog, body = self.prog, self.body
         outcomes = set()
-        for (ast, fr) in self.arrivals.get(site, []):
+        from .ctx import yield_site_of
+        for arr in self.arrivals.get(site, []):
+            ast, fr = arr[0], arr[1]
+            wfr, wbi = (arr[2], arr[3]) if len(arr) > 2 else (None, None)
             eng = self.new_engine(unroll=True)
             st = ast.fork()
             if utf8 is not None:
@@ -166,7 +178,8 @@ class FsmExtractor:
             stops = []
 
             def hook(kind, st_, fr_, bi, *a):
-                if kind == 'yield' and fr_.func == CLOSURE:
+                ys_ = yield_site_of(fr_, bi) if kind == 'yield' else None
+                if ys_ is not None:
                     callee, args, t = a
                     pos = st_.vn.get('scriptpos', 0)
                     if pos < len(script):
@@ -175,7 +188,7 @@ class FsmExtractor:
                         st_.log(('input', c))
                         return [(st_, some(t['dest']['ty'], StrV(c)))]
                     yv = args[1] if len(args) > 1 else None
-                    stops.append((bi, st_, self._yield_desc(yv)))
+                    stops.append((ys_[1], st_, self._yield_desc(yv)))
                     return []
                 return None
             eng.hooks = [hook]
@@ -183,12 +196,25 @@ class FsmExtractor:
             c0 = script.pop(0)
             st.log(('resume', site))
             st.log(('input', c0))
-            eng.write(st, eng.resolve(st, fr, t['dest']), some(t['dest']['ty'], StrV(c0)))
             eng.entry_name = 'coroutine site %d inputs %r' % (self.sites.index(site), inputs)
             try:
-                res = eng.exec_body(st, CLOSURE, [], start_bb=t['target'], frame=fr)
-                for (s2, ret) in res:
-                    outcomes.add(('RETURNED', (), '?'))
+                if wfr is None:
+                    eng.write(st, eng.resolve(st, fr, t['dest']), some(t['dest']['ty'], StrV(c0)))
+                    starts = [st]
+                else:
+                    # the yield is made inside a helper: the helper finishes first (with the character it was sent),
+                    # what it returns is the value of the call in the coroutine body
+                    wt = wfr.body.blocks[wbi]['term']
+                    eng.write(st, eng.resolve(st, wfr, wt['dest']), some(wt['dest']['ty'], StrV(c0)))
+                    starts = []
+                    for (s1, ret1) in eng.exec_body(st, wfr.func, [], start_bb=wt['target'], frame=wfr):
+                        s1.stack = s1.stack + (CLOSURE,) if not s1.stack or s1.stack[-1] != CLOSURE else s1.stack
+                        eng.write(s1, eng.resolve(s1, fr, t['dest']), ret1)
+                        starts.append(s1)
+                for s0 in starts:
+                    res = eng.exec_body(s0, CLOSURE, [], start_bb=t['target'], frame=fr)
+                    for (s2, ret) in res:
+                        outcomes.add(('RETURNED', (), '?'))
             except Budget as e:
                 outcomes.add(('ERROR', (str(e),), '?'))
             for (bi, s2, yd) in stops:
